@@ -14,6 +14,19 @@ LEVEL = "model_checking"
 ANGLES = [0.0, 1e-4, -2e-3, math.pi / 2 + 5e-3]
 
 
+def _with_prebuild(rng, build):
+    """in a third of the cases the judged build is preceded by a build with OTHER arguments on the same object
+    (same limit and fit but the opposite ignore_four, or another limit / fit), and in some the metadata argument is
+    omitted altogether: the equations must be those of the last call's arguments"""
+    r = rng.random()
+    if r < 0.2:
+        build["prebuild"] = {"limit": build["limit"], "fit": build["fit"], "ignore_four": not build["ignore_four"]}
+    elif r < 0.33:
+        build["prebuild"] = {"limit": rng.choice(["pi", "inf", 2.4]), "fit": rng.choice(["dlite", "taubinSVD"]), "ignore_four": None}
+    build["no_metadata"] = rng.random() < 0.3
+    return build
+
+
 def specs_for(ctx):
     rng = random.Random(ctx.seed)
     specs = []
@@ -33,8 +46,8 @@ def specs_for(ctx):
                           "k": inst["k"], "seed": rng.randrange(10 ** 9), "want": ["C02"],
                           "sim": {"theta": theta, "scale": 10 ** rng.uniform(-2, 2), "offset_sizes": rng.choice([0, 0, 2, 30]),
                                   "extent": 10.0, "reflect": rng.random() < 0.2},
-                          "build": {"limit": "inf", "fit": rng.choice(["dlite", "taubinSVD"]),
-                                    "ignore_four": b == "squares33" and rng.random() < 0.5},
+                          "build": _with_prebuild(rng, {"limit": "inf", "fit": rng.choice(["dlite", "taubinSVD"]),
+                                                         "ignore_four": b == "squares33" and rng.random() < 0.5}),
                           "ids": {"offset": rng.choice([0, 3, 50]), "stride": rng.choice([1, 2])},
                           "nosolve": True})
     for i in range(ctx.pick(80, 1500)):
@@ -43,8 +56,8 @@ def specs_for(ctx):
                                  "mobius": rng.choice([0.0, 0.5, 1.0, 1.6])},
                       "k": k, "seed": rng.randrange(10 ** 9), "want": ["C02"],
                       "sim": {"random": True, "near_axis": rng.random() < 0.3, "big": rng.random() < 0.15},
-                      "build": {"limit": rng.choice(["pi", "inf"]), "fit": rng.choice(["dlite", "taubinSVD"]),
-                                "ignore_four": rng.random() < 0.2},
+                      "build": _with_prebuild(rng, {"limit": rng.choice(["pi", "inf"]), "fit": rng.choice(["dlite", "taubinSVD"]),
+                                                     "ignore_four": rng.random() < 0.2}),
                       "resample": rng.choice([None, None, 3, 6]) if k >= 2 else None,
                       "ids": {"offset": rng.choice([0, 11]), "stride": rng.choice([1, 3]), "shuffle": rng.random() < 0.5},
                       "nosolve": True})
